@@ -44,6 +44,10 @@ CLAIMS = {
             'reading side (constants, block tags, serialised struct layouts, per-arm codec operation sequences with the field each carries, endianness '
             'and bincode options, nonce layout and counter step, layer order, HKDF/key-wrap parameters, cipher core types), so a symmetric change is '
             'caught although it round-trips. Does not decide interoperability with an independent decoder nor the GCM numerics (third sentence of C06).'),
+    'C19': (TECH_SHAPE, '§4 C19',
+            'Decides that the algorithm shape of seeded key generation and of key derivation (hash, salt value, ikm/info operands, PRNG type, '
+            'buffer slicing, chaining through re-parse, DER prefixes) equals the documented one, so that a self-consistent change of salt/hash/PRNG '
+            'is caught. Numeric key values are runtime facts and not decided.'),
 }
 
 NOT_APPLICABLE = {
